@@ -45,6 +45,10 @@ pub struct EpKnobs {
     pub dgram_send_buf: usize,
     pub initial_rtt_ms: u64,
     pub mtu_discovery: bool,
+    /// build the endpoint through `with_identity` / `with_no_cert_validation`, i.e. with the
+    /// library's own default transport configuration; every other knob is then ignored
+    #[serde(default)]
+    pub library_defaults: bool,
 }
 
 impl Default for EpKnobs {
@@ -61,6 +65,7 @@ impl Default for EpKnobs {
             dgram_send_buf: 1024 * 1024,
             initial_rtt_ms: 20,
             mtu_discovery: false,
+            library_defaults: false,
         }
     }
 }
@@ -80,6 +85,7 @@ impl EpKnobs {
             dgram_send_buf: 1024 * 1024,
             initial_rtt_ms: *rng.pick(&[5u64, 20, 100]),
             mtu_discovery: rng.chance_pm(200),
+            library_defaults: false,
         }
     }
 
@@ -116,6 +122,11 @@ pub fn no_verify_client_tls() -> rustls::ClientConfig {
 }
 
 pub fn server_config(addr: SocketAddr, k: &EpKnobs, identity: Identity, seed: [u8; 32]) -> ServerConfig {
+    if k.library_defaults {
+        let mut cfg = ServerConfig::builder().with_bind_address(addr).with_identity(identity).build();
+        cfg.quic_endpoint_config_mut().rng_seed(Some(seed));
+        return cfg;
+    }
     let mut cfg = ServerConfig::builder()
         .with_bind_address(addr)
         .with_custom_transport(identity, k.transport())
@@ -125,6 +136,11 @@ pub fn server_config(addr: SocketAddr, k: &EpKnobs, identity: Identity, seed: [u
 }
 
 pub fn client_config(addr: SocketAddr, k: &EpKnobs, seed: [u8; 32]) -> ClientConfig {
+    if k.library_defaults {
+        let mut cfg = ClientConfig::builder().with_bind_address(addr).with_no_cert_validation().build();
+        cfg.quic_endpoint_config_mut().rng_seed(Some(seed));
+        return cfg;
+    }
     let mut cfg = ClientConfig::builder()
         .with_bind_address(addr)
         .with_custom_tls_and_transport(no_verify_client_tls(), k.transport())
